@@ -20,6 +20,65 @@ def _hws_tables(mp):
     return dec, tabs
 
 
+def _lean_str(s):
+    out = []
+    for ch in s:
+        o = ord(ch)
+        if ch == '"':
+            out.append('\\"')
+        elif ch == "\\":
+            out.append("\\\\")
+        elif ch == "\n":
+            out.append("\\n")
+        elif 32 <= o < 127:
+            out.append(ch)
+        elif o < 256:
+            out.append("\\x%02x" % o)
+        else:
+            out.append("\\u%04x" % o if o < 0x10000 else ch)
+    return '"' + "".join(out) + '"'
+
+
+def _method_body(mod, cls, name):
+    """ast.unparse of the statements of a method (docstring dropped)"""
+    import inspect
+
+    tree = ast.parse(inspect.getsource(mod))
+    for n in ast.walk(tree):
+        if isinstance(n, ast.ClassDef) and n.name == cls:
+            for f in n.body:
+                if isinstance(f, ast.FunctionDef) and f.name == name:
+                    body = f.body
+                    if body and isinstance(body[0], ast.Expr) and isinstance(body[0].value, ast.Constant) and isinstance(body[0].value.value, str):
+                        body = body[1:]
+                    return [ast.unparse(st) for st in body]
+    return []
+
+
+def _parser_buffer_size():
+    import inspect
+
+    fp = importlib.import_module("werkzeug.formparser")
+    return int(inspect.signature(fp.MultiPartParser.__init__).parameters["buffer_size"].default)
+
+
+def _part_charsets():
+    """(sorted members of the `ct_charset in {...}` set literal, string constants returned by get_part_charset)"""
+    import inspect
+
+    fp = importlib.import_module("werkzeug.formparser")
+    tree = ast.parse(inspect.getsource(fp))
+    sets, rets = [], []
+    for n in ast.walk(tree):
+        if isinstance(n, ast.FunctionDef) and n.name == "get_part_charset":
+            for m in ast.walk(n):
+                if isinstance(m, ast.Compare) and len(m.ops) == 1 and isinstance(m.ops[0], ast.In) and isinstance(m.comparators[0], ast.Set):
+                    sets.append(sorted(e.value for e in m.comparators[0].elts if isinstance(e, ast.Constant)))
+                if isinstance(m, ast.Return) and isinstance(m.value, ast.Constant) and isinstance(m.value.value, str):
+                    rets.append(m.value.value)
+    return (sets[0] if len(sets) == 1 else []), rets
+
+
 @generator("Multipart")
 def gen_multipart():
     mp = importlib.import_module("werkzeug.sansio.multipart")
@@ -56,6 +115,19 @@ def headerContinuationPattern : List UInt8 := {lean_bytes(mp.HEADER_CONTINUATION
 /-- `re.escape` leaves every byte of an alphanumeric boundary alone and the patterns embed it
 verbatim: pattern for boundary `B7x` = pattern for `B` with `B` replaced -/
 def escapeVerbatim : Bool := {lean_bool(mp.MultipartDecoder(b"B7x").boundary_re.pattern == dec.boundary_re.pattern.replace(b"B", b"B7x") and mp.MultipartDecoder(b"B7x").preamble_re.pattern == dec.preamble_re.pattern.replace(b"B", b"B7x"))}
+/-- statements of `MultipartDecoder.receive_data` (ast.unparse, docstring dropped): `None` - and only
+`None` - ends the input; any bytes object, the empty one included, is appended after the size check -/
+def receiveDataStmts : List String := {lean_list([_lean_str(x) for x in _method_body(mp, "MultipartDecoder", "receive_data")], 1)}
+
+/-- default `buffer_size` of `formparser.MultiPartParser.__init__` (what `FormDataParser._parse_multipart`
+leaves in place) -/
+def parserBufferSize : Nat := {_parser_buffer_size()}
+
+/-- the set literal of admitted part charsets in `MultiPartParser.get_part_charset` (sorted), and the
+charset it returns otherwise -/
+def partCharsets : List String := {lean_list([_lean_str(x) for x in _part_charsets()[0]], 4)}
+def partCharsetDefault : List String := {lean_list([_lean_str(x) for x in _part_charsets()[1]], 4)}
+
 /-- flags of the five compiled patterns (re.MULTILINE = 8), in the order above -/
 def patternFlags : List Nat := [{flags(dec.preamble_re)}, {flags(dec.boundary_re)}, {flags(mp.BLANK_LINE_RE)}, {flags(mp.LINE_BREAK_RE)}, {flags(mp.HEADER_CONTINUATION_RE)}]
 
